@@ -244,4 +244,10 @@ def plan(exp, tier):
                       'floating-point rounding; behaviour inside the approx tolerance bands beyond what rel_eq_r states',
                       'face_forward at reference.incident == 0 exactly (the code returns self; the property does not say)']
     p.assumptions += ['approx::RelativeEq on the scalar is modelled by pre::rel_eq_r (a == b || |a-b| <= eps || |a-b| <= max(|a|,|b|) * max_relative) with default_epsilon = default_max_relative = eps_r()']
+    # integer element types: `v * (1 / w)` and `v / w` coincide in exact reals; Kani checks the integer definitions on /repo itself
+    import kani_driver
+    p.kani = kani_driver.load_specs('c11')
+    for sp in p.kani:
+        if sp.get('bounded'):
+            p.bounded.append('%s: %s' % (sp['harness'], sp['bounded']))
     return p
